@@ -60,7 +60,9 @@ def check(col, prog, tier, profile, fixture=None):
     A, B = names.index("a"), names.index("b")
     new = util.need_body(crate, "Rational::<T>::new")
     norm = util.need_body(crate, "Rational::<T>::norm")
-    col.rule("N1", "every Rational construction is normalised, has b = ONE, or negates only the numerator; operators return Self::new", floor=11)
+    helpers = util.private_helpers(crate, "Rational", exclude=[new, norm]) + [f for f in crate.bodies if not f.is_closure and f.kind == "Fn" and f.container is None and f.vis != "pub" and not util.self_recursive(f)]
+    An = util.analyser(helpers)
+    col.rule("N1", "every Rational construction is normalised, has b = ONE, or negates only the numerator; operators return Self::new", floor=8)
     col.rule("N2", "assigning / Copy operator forms resolve to the by-reference impl of the same family", floor=12)
     col.rule("N3", "PartialEq/Eq/Hash derived on the same fields; cmp = sign((self - rhs).a); partial_cmp = Some(cmp)", floor=5)
     col.rule("N4", "norm divides both fields by the same gcd and negates both iff b < 0", floor=3)
@@ -74,7 +76,7 @@ def check(col, prog, tier, profile, fixture=None):
         sites = [(bb, idx) for bb, idx, s in b.statements() if s["k"] == "assign" and s["rv"]["k"] == "agg" and s["rv"]["ak"]["k"] == "adt" and s["rv"]["ak"]["def"] == adt["key"]]
         if not sites:
             continue
-        I = util.analyse(b)
+        I = An(b)
         for st in I.final_states:
             ret = util.ret_term(st)
             evs = st.event_list()
@@ -113,7 +115,7 @@ def check(col, prog, tier, profile, fixture=None):
     if sorted(byref) != sorted(OPS):
         raise Anchor("expected by-reference impls of Add/Sub/Mul/Div for Rational, found %s" % sorted(byref))
     for tr, b in sorted(byref.items()):
-        I = util.analyse(b)
+        I = An(b)
         for st in I.final_states:
             ret = util.ret_term(st)
             evs = st.event_list()
@@ -155,7 +157,7 @@ def check(col, prog, tier, profile, fixture=None):
             continue  # the primary impls, handled above
         name = OPS[base] + ("_assign" if assign else "")
         b = crate.by_key[[it["key"] for it in imp["items"] if it["name"] == name][0]]
-        I = util.analyse(b)
+        I = An(b)
         for st in I.final_states:
             calls = [e for e in st.event_list() if e.kind == "call" and e.extra.get("name") in (OPS[x] for x in OPS) or (e.kind == "call" and (e.extra.get("name") or "").endswith("_assign"))]
             key = "%s|family" % fk(b)
@@ -173,7 +175,10 @@ def check(col, prog, tier, profile, fixture=None):
                     ok = ctr == base and tdef == byref[base].key
                     selfp = ("deref", ("param", 1, I.names.get(1)))
                     stores = [x for x in st.event_list() if x.kind == "store" and x.place == selfp]
-                    ok = ok and len(stores) == 1 and stores[0].val == e.res and e.args[0] == ("load", ("m0",), selfp) and e.args[1] in (("param", 2, I.names.get(2)), ("ref", ("deref", ("param", 2, I.names.get(2)))))
+                    # the left operand is the old *self (cloned, or moved out with mem::replace / mem::take, which
+                    # leave a placeholder that the final store overwrites)
+                    ok = ok and stores and stores[-1].val == e.res and e.args[0] == ("load", ("m0",), selfp) and e.args[1] in (("param", 2, I.names.get(2)), ("ref", ("deref", ("param", 2, I.names.get(2)))))
+                    ok = ok and all(st_.val == e.res or (st_.val[0] in ("assoc", "call") and st_ is not stores[-1]) for st_ in stores)
                     detail = "calls %s::%s" % (ctr, e.extra.get("name"))
                 elif assign:
                     # Copy form: self.op_assign(&rhs) of the by-ref assign impl
@@ -207,7 +212,7 @@ def check(col, prog, tier, profile, fixture=None):
             continue
         tr = (imp.get("trait") or "").split("::")[-1]
         if tr == "Ord" and b.name == "cmp":
-            I = util.analyse(b)
+            I = An(b)
             for st in I.final_states:
                 ret = util.ret_term(st)
                 ok = ret[0] == "call" and str(ret[1]).endswith("Ord::cmp")
@@ -225,7 +230,7 @@ def check(col, prog, tier, profile, fixture=None):
                 else:
                     col.violation("N3", key, b.loc(), "Ord::cmp is not the sign of the numerator of (self - rhs): order is not the numeric order / not consistent with equality (%s)" % tstr(ret))
         if tr == "PartialOrd" and b.name == "partial_cmp":
-            I = util.analyse(b)
+            I = An(b)
             for st in I.final_states:
                 ret = util.ret_term(st)
                 ok = ret[0] == "agg" and ret[1][3] == "Some" and ret[2][0][0] == "call" and str(ret[2][0][1]).endswith("Ord>::cmp")
@@ -236,7 +241,7 @@ def check(col, prog, tier, profile, fixture=None):
                     col.violation("N3", key, b.loc(), "partial_cmp must be Some(self.cmp(rhs))")
 
     # ---------------- N4
-    I = util.analyse(norm)
+    I = An(norm)
     selfp = ("deref", ("param", 1, I.names.get(1)))
     fa, fb = ("field", selfp, A), ("field", selfp, B)
     for st in I.final_states:
